@@ -21,6 +21,22 @@ CLAIMED = {
              "Assumes buffers < 4 GiB, no overflow in additions of 32-bit lengths, little-endian arm, std::vector move "
              "semantics. update_records' content-dependent walk is a recorded known finding under C10.",
     ),
+    "C02": dict(
+        category="other",
+        design_ref="DESIGN.md section 3 / C02",
+        technique="static analysis: symbolic size forms of serialisers and size functions (E-STREAMFX, vlib/streamfx.py) "
+                  "compared on the finite partition of the conditions they test; pairing on the clang CFG (cache pairs); "
+                  "taint of the raw buffer pointer; call-graph enumeration of throw sites",
+        text="Decides: (R1) for all 55 concrete layer classes the bytes the serialiser gives the bounded cursor before/after "
+             "the inner layer never exceed header_size()/trailer_size(), in every cell of the condition partition (option "
+             "kinds incl. all 256 IP option octets, message types, flags) - found and fixed the TCP and IP option-size "
+             "defects; (R2) cached option/tag sizes follow their lists under every add/remove; (R3) the raw output buffer "
+             "is written only at offsets the cursor already accepted; (R4) the driver composes the layers' regions; (R5) no "
+             "throw site other than the cursor's bound checks and 8 tabled, reasoned ones is reachable while serialising.",
+        note="NOT decided: LLC's cached lengths (1 undecided instance), the exact placement of ICMP/ICMPv6 extension padding "
+             "(3 undecided R3 instances, bounded by trailer_size()), arbitrary building-API histories beyond R2, uint32 wrap "
+             "of sizes. 'Fewer bytes written than counted' is noted, not a violation (zero gap, no overwrite).",
+    ),
     "C06": dict(
         category="other",
         design_ref="DESIGN.md section 3 / C06",
